@@ -41,7 +41,7 @@ for item in args:
         for prop in props:
             t = time.time()
             p = subprocess.run(["./check", prop, "--repo", repo], cwd="/verif", capture_output=True, text=True,
-                               env=dict(os.environ, VERIF_EVIDENCE_DIR="/tmp/seedrepo-evidence"))
+                               env=dict(os.environ, VERIF_EVIDENCE_DIR="/tmp/seedrepo-evidence" + ("" if repo == "/tmp/seedrepo" else "-" + os.path.basename(repo))))
             out = p.stdout + p.stderr
             keys = [l.strip() for l in out.splitlines() if l.strip().startswith("[")]
             fired = p.returncode == 1 and "VIOLATION" in out
